@@ -279,7 +279,15 @@ impl Sched {
                 "lcstart" => o.push(("lcdrop", step["c"].as_i64().unwrap_or(0))),
                 "lenter" => o.push(("lexit", step["l"].as_i64().unwrap_or(0))),
                 "dropg" | "lcdrop" | "lccollect" | "lexit" => {
-                    o.pop();
+                    let key = match step["op"].as_str().unwrap_or("") {
+                        "dropg" => "g",
+                        "lexit" => "l",
+                        _ => "c",
+                    };
+                    let n = step[key].as_i64().unwrap_or(0);
+                    if let Some(i) = o.iter().rposition(|x| x.1 == n) {
+                        o.remove(i);
+                    }
                 }
                 _ => {}
             }
@@ -432,7 +440,15 @@ impl Sched {
                 "lcstart" => o.push(("lcdrop", step["c"].as_i64().unwrap_or(0))),
                 "lenter" => o.push(("lexit", step["l"].as_i64().unwrap_or(0))),
                 "dropg" | "lcdrop" | "lccollect" | "lexit" => {
-                    o.pop();
+                    let key = match step["op"].as_str().unwrap_or("") {
+                        "dropg" => "g",
+                        "lexit" => "l",
+                        _ => "c",
+                    };
+                    let n = step[key].as_i64().unwrap_or(0);
+                    if let Some(i) = o.iter().rposition(|x| x.1 == n) {
+                        o.remove(i);
+                    }
                 }
                 _ => {}
             }
